@@ -18,6 +18,22 @@ CLAIMS = {
         design_ref="DESIGN.md §5 C14"),
 }
 
+E1_TECH = "bounded symbolic execution of the real Go functions (go/ssa -> SMT bit-vectors/arrays), z3 decides every branch and assertion; counterexamples replayed natively"
+
+CLAIMS.update({
+    "C03": dict(level="model_checking", engine="gosym", technique=E1_TECH, design_ref="DESIGN.md §5 C03",
+        text="Decoder kernels on arbitrary bytes: for every buffer of 0..11 symbolic bytes each LEB128 decoder returns a value or an error (no Go run-time panic), "
+             "accepts exactly the encodings that terminate within 5/10 bytes and fit the width (unsigned) / returns the sign-extended payload with bounded bytesRead (signed), "
+             "and Load(Encode(v)) == v for every 32/64-bit v. Whole-module decoding and function-body validation are outside this claim (see evidence bounds)."),
+    "C16": dict(level="model_checking", engine="gosym", technique=E1_TECH, design_ref="DESIGN.md §5 C16",
+        text="One-step induction against ghost reference models: from an arbitrary descriptor table state (0..2 symbolic mask words, symbolic items) Insert returns the lowest free key, "
+             "InsertAt/Delete/Lookup act as a map for every int32 key and leave all other keys unchanged. OS file semantics are outside the claim."),
+    "C17": dict(level="model_checking", engine="gosym", technique=E1_TECH, design_ref="DESIGN.md §5 C17",
+        text="For all 2^80 path_open flag words (dirflags, oflags, fdflags, rights) and all 2^32 Oflag words, what a read-only mount forwards to the wrapped file system contains none of "
+             "O_WRONLY|O_RDWR|O_CREAT|O_TRUNC or the open is refused; every mutating FS/File method of ReadFS, readFile and AdaptFS fails without reaching the wrapped object (recording stub). "
+             "What the kernel does with the remaining flags is outside the claim."),
+})
+
 NOT_APPLICABLE = {
     "C09": "Object lifetime under the Go collector, finalizers and munmap of code segments is a property of the Go run-time system, not of a function's "
            "input/output relation; gosym's heap has no collector and the emitted code has no notion of reclamation, so no solver query expresses it (DESIGN.md §6).",
